@@ -478,8 +478,9 @@ class PathEval:
        A switch on a value built from an atom splits the path and records what the atom must be on each side
        (key ('fact', atom) in the environment)."""
 
-    def __init__(self, ctx, body, max_states=6000):
+    def __init__(self, ctx, body, max_states=6000, track_bools=True):
         self.ctx = ctx; self.b = body; self.max_states = max_states
+        self.track_bools = track_bools          # False: unknown bools get no symbol (far fewer states; enough for "does an error value take the Break arm")
 
     # ---- reading
     def _fresh(self, env, atom):
@@ -496,7 +497,7 @@ class PathEval:
             if isinstance(v, tuple) and v[0] == 'ref': l = v[1]; v = env.get(l)
             else: return None
         if not p:
-            if v is None and site is not None and (self.b.locals[l] == 'bool' or site[2] == 'enum'):
+            if v is None and site is not None and ((self.b.locals[l] == 'bool' and self.track_bools) or site[2] == 'enum'):
                 v = self._fresh(env, ('sym', l, site[:2])); env[l] = v
             return v
         # payloads `(x as Some).0` and tuple components `.i`, nested in any order
@@ -712,14 +713,14 @@ def dominates_ok(ctx, body, bbs):
     bbs = {bbs} if isinstance(bbs, int) else set(bbs)
     oks = body.strict_ok_exits()
     if any(all(body.dominates(b, e) for e in oks) for b in bbs): return True
-    arr, rets, complete = PathEval(ctx, body).explore(0, {}, stop=bbs)
+    arr, rets, complete = PathEval(ctx, body, max_states=60000, track_bools=False).explore(0, {}, stop=bbs)
     return complete and not any(result_kind(e) == 'ok' for e in rets)
 
 
 def dominates_sem(ctx, body, a, b):
     """every feasible path from the entry to block b passes block a"""
     if a == b or body.dominates(a, b): return True
-    pe = PathEval(ctx, body)
+    pe = PathEval(ctx, body, max_states=60000, track_bools=False)
     arr, rets, complete = pe.explore(0, {}, stop={a})
     return complete and b not in pe.visited
 
@@ -1006,7 +1007,7 @@ def renormalised(ctx, body):
     if raw is None or body.name not in raw.bodies: return body
     needs = False
     for c in body.calls:
-        if (c.trait or '') == 'std::iter::Iterator' and c.item in ('try_fold', 'fold', 'for_each', 'try_for_each', 'find', 'find_map', 'any', 'all', 'position', 'map', 'filter', 'filter_map', 'chain'): needs = True
+        if (c.trait or '') == 'std::iter::Iterator' and c.item in ('try_fold', 'fold', 'for_each', 'try_for_each', 'find', 'find_map', 'any', 'all', 'position', 'map', 'filter', 'filter_map', 'chain', 'flat_map'): needs = True
         if re.search(r'option::Option::<.*?>::(map|and_then|or_else|unwrap_or_else)::<|result::Result::<.*?>::(map|and_then)::<', c.name): needs = True
     # helpers that the normal form inlined may contain such calls as well: they are in `body` already (it is the inlined form)
     if not needs: return body
@@ -1197,6 +1198,18 @@ def renormalised(ctx, body):
                 if fissioned:
                     for _ in range(40):
                         if not self._desugar_one(rw): break
+                # the inner iterator a spliced flat_map closure returns is walked by a synthetic `next` loop; if that iterator is itself an adaptor
+                # chain with closures (`state.entries.iter().map(move |(d, v)| (d, v, id))`) splice those as well
+                for _ in range(10):
+                    again = False
+                    for bi, b in enumerate(rw.blocks):
+                        t = b['term']
+                        if b['cleanup'] or t['k'] != 'call' or not t.get('synthetic') or t.get('desugared') or (t.get('ri') or {}).get('item') != 'next' or not normalize._is_iter_trait(t): continue
+                        try:
+                            if self._desugar_for(rw, bi, t): again = True; break
+                        except normalize._GiveUp:
+                            t['desugared'] = 'gave-up'
+                    if not again: break
                 for _ in range(30):
                     if not self._desugar_option(rw): break
                 if fissioned: self._fold_const_switches(rw)
